@@ -43,7 +43,7 @@ def obligations(tier, seed=0):
                 add(mbits=mbits, E=E, prec=prec, rnd=rnd, mneg=mneg, limit=5)
     # the tokeniser on symbolic literals: every digit symbolic, positions of '.', 'e' and signs per shape
     shapes = ['D', 'DDD', 'D.D', 'D.DDD', 'DD.D0', '.D', '.DD', '-.DD', 'D.', 'DD.DeD', 'N.DDe-DD', 'DDeD', 'De+DD', '.DDeD', 'D.e+D', '-DD.De+DD', '+D.DDe-D',
-              '0.0DD', '00D.D00', 'DDDDDD.DDD']
+              '0.0DD', '00D.D00', 'DDD.DD']
     if thorough:
         shapes += ['DDDDDDDDDDDDDDD', 'D.DDDDDDDDDDe-DDD', '-.DDDDDDDDe+DD', 'DDDDDD.DDDDDDeDDD', 'DDDDDDDDDDDD.DDDDDD']
     for sh in shapes:
